@@ -130,7 +130,7 @@ def gen_program(rng):
     for what in kinds:
         for params, ret in family(rng, what):
             rets = list(ret) if isinstance(ret, tuple) else [ret]
-            callees.append(dict(name='tw%d' % len(callees), params=list(params), ret=', '.join(rets), rets=rets))
+            callees.append(dict(name='tw%d' % len(callees), params=list(params), ret=', '.join(rets), rets=rets, raw=rng.random() < 0.4))
             calls.append(('mir', len(callees) - 1, rng.choice(['reg', 'reg', 'name'])))
     if rng.random() < 0.6:
         kinds.append('cnat')
@@ -150,7 +150,7 @@ def gen_program(rng):
             ts = [rng.choice(C_PAIR_T), rng.choice(C_PAIR_T)]
             if ts != ['f', 'f']:
                 break
-        mres.append(dict(name='mre%d' % k, rets=ts))
+        mres.append(dict(name='mre%d' % k, rets=ts, raw=rng.random() < 0.4))
     return dict(callees=callees, calls=calls, kinds=kinds, mres=mres)
 
 
@@ -163,7 +163,7 @@ def callee_text(c):
         if A.is_rblk(p):
             for off in range(0, p[1], 8):
                 b += ['add t, r, %d' % off, 'mov i64:%d(a%d), t' % (off, j)]
-    b += ret_code(c['rets'], 'r')
+    b += ret_code(c['rets'], 'r', c.get('raw', False))
     return o + ['  ' + l for l in b] + ['  endfunc']
 
 
@@ -171,7 +171,7 @@ RLOCALS = ', '.join('i64:q%d, d:qd%d, f:qf%d, ld:qx%d' % (k, k, k, k) for k in r
 NARROW = {'i64': 'mov', 'u64': 'mov', 'p': 'mov', 'i32': 'ext32', 'u32': 'uext32', 'i16': 'ext16', 'u16': 'uext16', 'i8': 'ext8', 'u8': 'uext8'}
 
 
-def ret_code(rets, h):
+def ret_code(rets, h, raw=False):
     """the function's results from the hash in register h (result k: res_hash (h, k) narrowed / converted to its type)"""
     b, regs = [], []
     for k, ty in enumerate(rets):
@@ -179,7 +179,8 @@ def ret_code(rets, h):
         if k:
             b.append('add q%d, q%d, %d' % (k, k, k))
         if ty in NARROW:
-            b.append('%s q%d, q%d' % (NARROW[ty], k, k))
+            if not raw:     # raw: the function returns the whole 64-bit hash, narrowing to the result type is the engines' job
+                b.append('%s q%d, q%d' % (NARROW[ty], k, k))
             regs.append('q%d' % k)
         elif ty == 'd':
             b += ['and q%d, q%d, 1048575' % (k, k), 'i2d qd%d, q%d' % (k, k), 'dmul qd%d, qd%d, 0.5' % (k, k)]
@@ -276,7 +277,7 @@ def emit(d):
     o += driver_text(d, 'drv_r', list(reversed(d['calls'])))
     for m in d['mres']:
         o += ['  export ' + m['name'], '%s: func %s, i64:a0, i64:a1' % (m['name'], ', '.join(m['rets'])), '  local i64:r, ' + RLOCALS,
-              '  mul r, a0, 3', '  add r, r, a1'] + ['  ' + l for l in ret_code(m['rets'], 'r')] + ['  endfunc']
+              '  mul r, a0, 3', '  add r, r, a1'] + ['  ' + l for l in ret_code(m['rets'], 'r', m['raw'])] + ['  endfunc']
     o.append('  endmodule')
     return '\n'.join(o) + '\n'
 
